@@ -250,6 +250,23 @@ pub const POSIX_STRINGS: &[&str] = &[
     "LMT-0:00:51LST-1:00:51,M4.1.0/1,M9.5.6/3",
 ];
 
+/// POSIX rules that are legal but hostile: the daylight period is shorter than the clock shift
+/// (so the gap of one transition reaches past the next transition), transitions an hour apart,
+/// shifts of many hours. Only used where the oracle is internal consistency (C13), because
+/// civil resolution in such zones is not modelled by the reference.
+pub const POSIX_ADVERSARIAL: &[&str] = &[
+    "AAA0BBB-3,M3.2.0/0,M3.2.0/4",
+    "XXX0YYY-5,J60/0,J60/7",
+    "STD-1DST-2,M6.1.0/2,M6.1.0/3:30",
+    "AAA3BBB-9,M10.1.0/0,M10.1.0/13",
+    "PPP8QQQ6,M4.1.0/1,M4.1.0/4",
+];
+
+pub fn posix_adversarial_zones() -> &'static Vec<Arc<Zone>> {
+    static S: OnceLock<Vec<Arc<Zone>>> = OnceLock::new();
+    S.get_or_init(|| POSIX_ADVERSARIAL.iter().filter_map(|s| from_posix(s).map(Arc::new)).collect())
+}
+
 pub fn posix_zones() -> &'static Vec<Arc<Zone>> {
     static S: OnceLock<Vec<Arc<Zone>>> = OnceLock::new();
     S.get_or_init(|| {
